@@ -3,7 +3,7 @@ K3 growth initiators (who-may-call) / K4 cap guard, never shrinks / K5 constants
 from fractions import Fraction
 
 from .affine import facts_at, le_at, ne0_at, evaluator, evaluator_exact, floor_shift, Aff, TOP
-from .analysis import flow, cond_of, dominated_by_edge, reach, entry, Point, dominates
+from .analysis import flow, cond_of, dominated_by_edge, reach, entry, Point, dominates, return_points
 from .anchors import callee_str, is_std_atomic, receiver_field, is_reclaim_atomic
 from .callgraph import callgraph
 from .facts import strip_generics, op_root, op_local, op_int
@@ -417,6 +417,45 @@ def rule_k5(ctx, facts):
                   "no comparison of the count with size_ctl dominates this transfer call"))
 
 
+def rule_k8(ctx, facts):
+    """reserve(additional) either hands len() + additional to try_presize or returns only where that sum is seen to be BELOW the growth
+    threshold: a resize starts when the count reaches size_ctl, so `absolute <= size_ctl` is not enough room for `additional` more"""
+    rs = [b for b in facts.bodies if b.sid.endswith("map::HashMap::reserve")]
+    tp = facts.body("HashMap::try_presize")
+    if len(rs) != 1:
+        ctx.fail_closed("K8: HashMap::reserve not found")
+        return
+    b = rs[0]
+    ev = evaluator(b)
+    calls = {c.point for c in b.calls if c.resolved == tp.id and not b.is_cleanup(c.b)}
+    if not calls:
+        ctx.inst("K8", b, "reserve reaches try_presize", b.span, False, "reserve never calls try_presize")
+        return
+    absf = [ev.operand(c.args[1]) for c in b.calls if c.resolved == tp.id]
+    sc_loads = find_size_ctl_loads(b)
+    r = reach(b, [entry(b)], avoid=calls)
+    early = [rp for rp in return_points(b) if rp in r]
+    if not early:
+        ctx.inst("K8", b, "reserve always goes through try_presize", b.span, True, "no return bypasses try_presize")
+        return
+    for rp in early:
+        ok = False
+        for kind, lin, bound, blk in facts_at(b, rp):
+            if kind != "le":
+                continue
+            scs = [s0 for s0 in lin.symbols() if s0[0] == "call" and any(l.b == s0[1] for l in sc_loads)]
+            if len(scs) != 1 or lin.coeff(scs[0]) != -1:
+                continue
+            rest = lin + Aff({scs[0]: 1})
+            # absolute - size_ctl <= -1
+            if any(a is not TOP and rest == a for a in absf) and bound <= -1:
+                ok = True
+        ctx.inst("K8", b, "early return of reserve", b.span_at(rp), ok,
+                 "returns without presizing only where len() + additional < size_ctl" if ok else
+                 "reserve returns without calling try_presize on a path where len() + additional is not shown to be below size_ctl: the table "
+                 "grows before `additional` further entries are in (growth starts when the count REACHES size_ctl)")
+
+
 def rule_k6(ctx, facts):
     cg = callgraph(facts)
     wc = facts.body("HashMap::with_capacity_and_hasher")
@@ -442,6 +481,8 @@ def run(ctx, facts):
     ctx.rule("K2", "capacity rounding min(2^30, next_power_of_two(1.5c+1)) in both presize siblings; thresholds are 3/4 of the new length",
              floor=6, floor_note="2 roundings + agreement + threshold stores in presize, try_presize, init_table, transfer")
     ctx.rule("K3", "resize initiators, try_presize callers, hint discipline", floor=7)
+    ctx.rule("K8", "reserve bypasses try_presize only where len() + additional < size_ctl", floor=1)
+    rule_k8(ctx, facts)
     ctx.rule("K7", "reserve(additional) presizes for len() + additional", floor=1)
     ctx.rule("K4", "cap guard before initiating; table pointer only replaced by fresh/doubled tables", floor=5)
     ctx.rule("K5", "constants and comparison operators of the contract", floor=6)
